@@ -66,6 +66,13 @@ def run_case(rep, rng, ci, cfg, texts, recs_all):
         if not (abs(dts[-1] - dt_max) <= 1e-15 * dt_max and all(b >= a * (1 - 1e-12) for a, b in zip(dts, dts[1:]))):
             rep.violation("adaptive time step did not grow monotonically to dt_max on the stationary state",
                           {**case, "dts_head": dts[:12], "dt_last": dts[-1]})
+        # C17_dt_grows_to_max: dt_init up to step window+1, dt_max from step window+2 on (window = 5; the recorded
+        # max |d|psi|^2| stay far below the 1e-10 floor on the stationary state)
+        want = [dt_init if i <= 6 else dt_max for i in range(len(dts))]
+        if dts != want:
+            k = next(i for i, (a, b) in enumerate(zip(dts, want)) if a != b)
+            rep.violation("stationary state: the step sequence is not dt_init up to step window+1 and dt_max afterwards",
+                          {**case, "first_difference_at_step": k, "dt": dts[k], "expected": want[k]})
     else:
         if any(d != dt_init for d in dts):
             rep.violation("fixed-step run used a step different from dt_init", case)
